@@ -4,6 +4,7 @@
   the counterexample theorems below are closed terms checked by the kernel and replayed on the real StateDB by the probes.
 -/
 import NibiruModel.StateDB
+import NibiruProofs.SDBRevert
 namespace Nibiru.SDB
 
 /-! ### counterexamples (the property fails for the code as it is) -/
@@ -116,5 +117,15 @@ theorem C04_balance_views_agree_after_sync (s : S) (a : Nat) :
   unfold syncBalance
   obtain ⟨o, ho, hb⟩ := setBalance_objs s a (((((curStore s).acct a).map (·.balance)).getD 0) * weiPerUnibi)
   rw [readAcc_of_obj _ a o ho, hb, curStore_setBalance]
+
+/-- **C04 (partial: frames without a precompile call).** A call frame is `Snapshot`, any sequence of EVM writes (balance, nonce,
+    code, storage, self-destruct, logs, refunds, access list) on accounts the interpreter has read, and — on failure —
+    `RevertToSnapshot`: every observable of the StateDB is then exactly what it was before the frame, for every such sequence
+    (NibiruProofs/SDBRevert.lean). The counterexamples above show that this stops being true as soon as the frame contains a Nibiru
+    precompile call (the intermediate flush is not journaled). -/
+theorem C04_frame_revert_restores_partial {A : List Nat} (s : S) (hc : Cached A s) (hrev : ∀ r ∈ s.revisions, r.1 < s.nextRev)
+    (ws : List WOp) (hw : ∀ w ∈ ws, ∀ a, w.acct = some a → a ∈ A) :
+    ∃ s3, revertToSnapshot (applyAll (snapshot s).1 ws) (snapshot s).2 = some s3 ∧ Eqv A s3 s :=
+  snapshot_revert_restores s hc hrev ws hw
 
 end Nibiru.SDB
